@@ -327,6 +327,11 @@ def run(ctx: Ctx) -> int:
         r3 = ctx.tlc("Builder", CFG.format(maxn=3, names=tla({"a"}), kinds=tla({"def", "cm", "prop", "setter", "class", "assign", "oldsm", "if", "ifmain", "try"})),
                      workers="auto", check=True, timeout=3000)
         progs = progs + r3.printed
+    else:
+        # every 4-statement program over one name and the kinds that interact (duplicates, wrapping, properties, blocks)
+        r4 = ctx.tlc("Builder", CFG.format(maxn=4, names=tla({"a"}), kinds=tla({"def", "cm", "prop", "setter", "class", "assign", "oldsm", "if", "ifmain"})),
+                     workers="auto", check=True, timeout=6000)
+        progs = progs + [p for p in r4.printed if p["n"] == 4]
     ctx.exhaustive = True
     if not progs:
         raise MachineryError("TLC emitted no program")
